@@ -45,8 +45,8 @@ MasterOf(k) == CASE k = 0 -> <<0, 0>> [] k = 1 -> <<2, 3>> [] OTHER -> <<9, 25>>
 
 \* A second, fixed group (master "C3*2", two cells in a column) follows the first one in the same
 \* sheet; the shared indices of the two groups are chosen by the writer: si pair id
-\*   0 -> (0,1)   1 -> (0,2) (a gap)   2 -> (1,0) (descending in sheet order)
-SiOf(k) == CASE k = 0 -> <<0, 1>> [] k = 1 -> <<0, 2>> [] OTHER -> <<1, 0>>
+\*   0 -> (0,1)   1 -> (0,2) (a gap)   2 -> (1,0) (descending in sheet order)   3 -> (0,4)   4 -> (2,7) (wider gaps)
+SiOf(k) == CASE k = 0 -> <<0, 1>> [] k = 1 -> <<0, 2>> [] k = 2 -> <<1, 0>> [] k = 3 -> <<0, 4>> [] OTHER -> <<2, 7>>
 Init == atoms = <<>> /\ stage = "build" /\ grp \in [m : Masters, shape : Shapes, si : SiPairs]
 
 \* next_formula's `formulas` vector: a master with index b is appended at max(len, b); members
